@@ -6,7 +6,7 @@ P=$(readlink -f "$1"); shift
 cd /verif
 if [ -n "$(git -C /repo status --porcelain)" ]; then echo "/repo not clean"; exit 2; fi
 git -C /repo apply "$P" || exit 2
-trap 'git -C /repo checkout -- .' EXIT
+trap 'git -C /repo checkout -- . ; /venv/bin/python -W ignore /verif/tools/gen_all.py > /dev/null' EXIT
 for id in "$@"; do
   out=$(./check $id --tier ${TIER:-quick} 2>&1); rc=$?
   echo "$id exit=$rc $(echo "$out" | grep -m1 '^VIOLATION')"
